@@ -26,7 +26,7 @@ from . import common as CM
 
 UNIT_TOL = 1e-9
 POOL = ['madgwick_imu', 'madgwick_marg', 'mahony_imu', 'mahony_marg', 'ekf_imu', 'ekf_marg', 'ukf',
-        'aqua_imu', 'aqua_marg', 'fourati', 'roleq', 'angular', 'fkf', 'complementary_imu', 'complementary_marg',
+        'aqua_imu', 'aqua_marg', 'fourati', 'roleq', 'angular', 'angular_integration', 'fkf', 'complementary_imu', 'complementary_marg',
         'oleq', 'flae', 'tilt', 'tilt_acc', 'saam', 'famc', 'fqa', 'quest', 'davenport', 'triad', 'aqua_alg']
 
 
@@ -48,7 +48,7 @@ def zero_feature(m):
 def representation_of(kind, p, arch='batch'):
     if kind.name == 'saam' and arch == 'stream':
         return 'quaternion'     # SAAM.estimate() always returns a quaternion; the option belongs to the constructor
-    if kind.name in ('tilt', 'tilt_acc', 'saam', 'triad'):
+    if kind.name in ('tilt', 'tilt_acc', 'saam', 'triad', 'angular_integration'):
         return p.get('representation', 'rotmat' if kind.name == 'triad' else 'quaternion')
     return 'quaternion'
 
@@ -87,6 +87,8 @@ class Check:
         n = rnd.choice([10, 30, 60, 120, 200]) if tier == 'quick' else rnd.choice([10, 40, 120, 400, 1200, 5000])
         mags = rnd.choice(['nominal', 'unit', 'decades', 'decades'])
         world = W.gen_world(rnd, n, allow_kicks=True, allow_poses=True, magnitudes=mags, noise=rnd.random() < 0.6)
+        if rnd.random() < 0.1:
+            world['dt'] = rnd.choice([0.1, 0.25, 1.0])      # slow loggers: valid sampling rates, large rotation per step
         kinds = rnd.sample(['glitch', 'scale', 'stuck', 'dup'], rnd.randint(0, 4))
         if kinds:
             world['faults'] = W.gen_faults(rnd, world, kinds, max_faults=5)
